@@ -1,7 +1,8 @@
 (* C06 — Multi-objective step rule and return-to-base schedule (suppapitnarm explorer).
    Statements only; every proof is [exact <lemma>] from SuppapitnarmProofs / SuppapitnarmSchedule /
-   SuppRtbFloatProofs.  Model: Suppapitnarm.v (explorer + archive operations), SuppRtbFloat.v (binary64
-   leaves in Coq primitive floats).
+   SuppRtbFloatProofs / SuppapitnarmCompose.  Model: Suppapitnarm.v (explorer), NdArchive.v (the archive
+   model of C05, used as it is: attempt / force / is_non_dominant), SuppRtbFloat.v (binary64 leaves in Coq
+   primitive floats).
 
    Reading guide.  [accept_phase] = AttemptToArchiveState + AcceptOrRevertChange; [iteration] =
    TryRandomChange; CoolDown; [reach p s0 n s] = s is reachable from s0 in n iterations for SOME
@@ -11,8 +12,8 @@
    math.Exp returned; the uniform draw is [unitary draw]; p > u is [PrimFloat.ltb u p]. *)
 From Coq Require Import List ZArith NArith QArith Bool Floats Reals.
 From Flocq Require Import Core.
-From Crem Require Import Base.Res Dominance SuppRtbFloat Suppapitnarm
-  SuppRtbFloatProofs SuppapitnarmProofs SuppapitnarmSchedule.
+From Crem Require Import Base.Res Dominance NdArchive NdArchiveProofs Catchment Limits LimitsProofs Compose ComposeProofs
+  SuppRtbFloat Suppapitnarm SuppRtbFloatProofs SuppapitnarmProofs SuppapitnarmSchedule SuppapitnarmCompose.
 Import ListNotations.
 
 (* ================= 1. the move rule, for every state and every candidate ================= *)
@@ -62,7 +63,8 @@ Proof. exact move_iff_probability. Qed.
 (* ... in which case the candidate is forced into the solution set *)
 Theorem C06_accepted_undesirable_is_forced : forall p s i v d s1,
   accept_phase p s i = Ok (v, d, s1) -> d = AcceptUndesirable ->
-  cur s1 = i_cand i /\ force (arch s) (i_cand i) = Ok (arch s1) /\ In (i_cand i) (arch s1)
+  cur s1 = i_cand i /\ force (arch s) (i_cand i) = Ok (StoredForcingDominatingStateRemoval, arch s1)
+  /\ In (i_cand i) (arch s1)
   /\ storage s1 = StoredForcingDominatingStateRemoval /\ accepted s1 = true.
 Proof. exact accepted_undesirable_forced. Qed.
 
@@ -93,6 +95,87 @@ Theorem C06_runs_are_iterations : forall p is s os s',
   /\ forall n i, nth_error is n = Some i ->
        exists sn o sn', reach p s n sn /\ iteration p sn i = Ok (o, sn') /\ nth_error os n = Some o.
 Proof. exact run_reach. Qed.
+
+
+(* ================= 1b. over C05's archive model and the composed model ================= *)
+
+(* In EVERY run of the model (from Initialise, any inputs with vectors of one length d and values a function
+   of the action set -- boolean hypotheses) the archive is exactly C05's pure archive run over the operation
+   sequence Offer / OfferForce the explorer emitted, hence mutually non-dominated, duplicate-free and made of
+   offered candidates (C05's invariant, NdArchiveProofs.inv_run) *)
+Theorem C06_archive_is_C05_run_and_invariant : forall p d c0 t0 s0 is os s,
+  init_state p c0 t0 = Ok s0 -> run p s0 is = Ok (os, s) ->
+  same_dim_b d (map i_cand is) = true -> consistent_b (map i_cand is) = true ->
+  arch s = run_b_from [] (ops_of is os)
+  /\ nondominated (arch s) /\ dup_free (arch s) /\ incl (arch s) (map i_cand is).
+Proof. exact run_archive_invariant_b. Qed.
+
+(* ... which discharges the hypothesis of C06_move_certain_when_action_set_held: in every run, a candidate
+   whose action set the solution set already holds is moved to with certainty (the "held and also dominated"
+   corner does not exist) *)
+Theorem C06_move_certain_when_action_set_held_in_any_run : forall p d c0 t0 s0 is os s i,
+  init_state p c0 t0 = Ok s0 -> run p s0 is = Ok (os, s) ->
+  same_dim_b d (map i_cand (is ++ [i])) = true -> consistent_b (map i_cand (is ++ [i])) = true ->
+  (exists x, In x (arch s) /\ same_acts x (i_cand i)) ->
+  exists s1, accept_phase p s i = Ok (RejectedWithDuplicateEntryDetected, AcceptDesirable, s1)
+             /\ cur s1 = i_cand i /\ arch s1 = arch s /\ accprob s1 = 1%float.
+Proof. exact held_in_any_run. Qed.
+
+(* with vectors of one length the move rule is total and IS C05's pure step: Offer, or OfferForce exactly
+   when the verdict is undesirable and p > u *)
+Theorem C06_move_rule_is_C05_step : forall p d s i,
+  dim_ok d (arch s) -> wf_len d (i_cand i) ->
+  let c := i_cand i in
+  let v := fst (attempt_b (arch s) c) in
+  let acc := decide (accept_prob (p_kind p) (i_es i)) (unitary (i_draw i)) in
+  let forced := negb (stored_or_held v) && acc in
+  let moves := stored_or_held v || acc in
+  exists s1,
+    accept_phase p s i =
+      Ok (v, (if stored_or_held v then AcceptDesirable else if acc then AcceptUndesirable else RevertUndesirable), s1)
+    /\ arch s1 = snd (step_b (arch s) (if forced then OfferForce c else Offer c))
+    /\ cur s1 = (if moves then c else cur s)
+    /\ dim_ok d (arch s1).
+Proof. exact accept_phase_pure. Qed.
+
+(* the float-exact move rule refines the step rule [cm_apply] of the composed model (Compose.v, the model of
+   composed_multi_objective_run): on the candidate the catchment model values at pot2's action set, with the
+   coolant's answer := (acceptance probability > uniform draw in binary64), accept_phase and cm_apply
+   agree on the verdict, the archive, the recorded operation and the move *)
+Theorem C06_step_rule_refines_composed : forall p d m pot2 s i rtb m',
+  arch s = cm_arch m -> dim_ok 6 (cm_arch m) ->
+  i_cand i = entry_of d (active_list d pot2) ->
+  cm_apply d m pot2 (coolant_accepts p i) rtb = CMOk m' ->
+  exists dd s1,
+    accept_phase p s i = Ok (fst (attempt_b (cm_arch m) (i_cand i)), dd, s1)
+    /\ arch s1 = cm_arch m'
+    /\ cm_hist m' = cm_hist m ++ [(decision_eqb dd AcceptUndesirable, e_acts (i_cand i))]
+    /\ cur s1 = (if moves dd then i_cand i else cur s)
+    /\ (rtb = None ->
+        cm_cur m' = (if moves dd then synchronise d (cm_cur m) (e_acts (i_cand i)) else cm_cur m)).
+Proof. exact step_rule_refines_composed. Qed.
+
+(* whole iterations (move rule AND return to base) simulate the composed model: [sim] = same archive, same
+   current action set; the composed model's return-to-base selection is the index the iteration picked *)
+Theorem C06_iteration_refines_composed : forall p d m pot2 s i o s',
+  CMValid d m -> sim d s m ->
+  i_cand i = entry_of d (active_list d pot2) ->
+  iteration p s i = Ok (o, s') ->
+  exists m', cm_apply d m pot2 (coolant_accepts p i) (rtb_of i o s') = CMOk m' /\ sim d s' m'.
+Proof. exact iteration_refines_composed. Qed.
+
+(* hence the guarantees of composed_multi_objective_run carry over to the float-exact model, step by step:
+   on catchment-valued candidates (wf data set, valid potential state) the successor again simulates a valid
+   composed state, and its archive is mutually non-dominated, duplicate-free, valued by the catchment model
+   and within the limit *)
+Theorem C06_iteration_keeps_composed_guarantees : forall p d m pot2 s i o s',
+  wf_dataset d = true -> CMValid d m -> Valid d pot2 -> sim d s m ->
+  i_cand i = entry_of d (active_list d pot2) ->
+  iteration p s i = Ok (o, s') ->
+  exists m', CMValid d m' /\ sim d s' m'
+    /\ nondominated (arch s') /\ dup_free (arch s')
+    /\ forall e, In e (arch s') -> e_vec e = eval_vec d (e_acts e) /\ set_valid d (e_acts e) = true.
+Proof. exact iteration_keeps_composed_guarantees. Qed.
 
 (* ================= 2. probabilities lie in [0,1] ================= *)
 
@@ -254,6 +337,12 @@ Print Assumptions C06_no_move_current_unchanged.
 Print Assumptions C06_move_rule_leaves_schedule.
 Print Assumptions C06_iteration_current_solution.
 Print Assumptions C06_runs_are_iterations.
+Print Assumptions C06_archive_is_C05_run_and_invariant.
+Print Assumptions C06_move_certain_when_action_set_held_in_any_run.
+Print Assumptions C06_move_rule_is_C05_step.
+Print Assumptions C06_step_rule_refines_composed.
+Print Assumptions C06_iteration_refines_composed.
+Print Assumptions C06_iteration_keeps_composed_guarantees.
 Print Assumptions C06_acceptance_probability_in_unit_interval.
 Print Assumptions C06_acceptance_probability_in_unit_interval_bool.
 Print Assumptions C06_ideal_exp_in_unit_interval.
